@@ -164,7 +164,8 @@ def _init_worker(yardl_bin, workroot):
     os.environ["PYTHONHASHSEED"] = "0"
     # generated Python that asks for an absurd amount of memory gets MemoryError (an error it reports)
     import resource
-    resource.setrlimit(resource.RLIMIT_AS, (12 << 30, 12 << 30))
+    # (the soft limit only: a child that needs more - a sanitizer build reserves terabytes of address space - can lift it again)
+    resource.setrlimit(resource.RLIMIT_AS, (12 << 30, resource.getrlimit(resource.RLIMIT_AS)[1]))
 
 
 def _run_task(args):
